@@ -12,6 +12,7 @@ class Harness:
         self.bounded = []
         self.assumptions = []
         self.carved = []
+        self.theory_failures = []
         self._section = None
 
     def section(self, name, rule, bound):
@@ -41,8 +42,15 @@ class Harness:
         self.violations.append({"contract": contract, "key": key, "what": what, "input": inp, "observed": observed,
                                 "expected": expected, "section": self._section["name"]})
 
+    def theory_failure(self, axiom, what, inp):
+        """An assumed axiom of a theory disagrees with the real library: a checker defect (exit 3), never a property violation."""
+        self.evaluations += 1
+        self._section["evaluations"] += 1
+        if len(self.theory_failures) < 20:
+            self.theory_failures.append({"axiom": axiom, "what": what, "input": inp, "section": self._section["name"]})
+
     def result(self):
         return {"evaluations": self.evaluations, "distinct_nontrivial": len(self.distinct), "violations": self.violations,
                 "bounded": self.bounded, "samples": self.samples, "assumptions": self.assumptions,
-                "carved_clauses": self.carved,
+                "carved_clauses": self.carved, "theory_failures": self.theory_failures,
                 "rule": "; ".join("%s: %s [%s]" % (b["name"], b["rule"], b["bound"]) for b in self.bounded)}
